@@ -6,6 +6,7 @@ import c02
 
 CONFIGS = ['prod']
 EXPLANATION = (
+    'M7: no exclusive range in the node crate ends at the MAX of its element type (a walk over the node-id space that never visits id MAX). '
     'M6.SEM: the selector actor the watcher awaits before publishing each delta, interpreted end to end (the same summary as C15.N1.SEM): it serves every later update and request also after a reply could not be delivered because its requester went away. '
     'M5: the membership record is a plain carrier — ClusterMember::new stores id, address and data centre exactly as given (the selector filters the local node by comparing addresses, the consumers key their peers by id). '
     'SEM (abstract interpretation of the MIR, no code runs): the node\'s membership watcher, found by role, is interpreted over a scripted history of nine '
@@ -485,6 +486,32 @@ def body_reads_field(facts, body, fname):
     return False
 
 
+def check_M7(ctx, facts, rule='C16.M7'):
+    """M7: node ids are a small integer type and the whole range is legal (0 and the type's MAX included).  Code on the watcher's side of the
+    node crate that walks the id space with an EXCLUSIVE range whose end is the MAX of the element type never visits that id: a member with
+    that id takes part in selection and statistics but never appears in `joined` / `left`.  Expected count zero.  (Round 8, C16h: a 256-slot
+    table walked with `NodeId::MIN..NodeId::MAX`.)"""
+    MAXV = {'u8': 255, 'u16': 65535, 'u32': 4294967295, 'u64': 18446744073709551615, 'usize': 18446744073709551615}
+    n = 0
+    hits = []
+    for b in facts.bodies.values():
+        if b.crate != 'datacake_node' or b.d['promoted'] or b.derived:
+            continue
+        for _b, _j, s_ in b.assigns():
+            rv = s_['rv']
+            if rv['k'] == 'aggregate' and rv.get('agg') == 'adt' and strip_generics(rv['adt']) == 'core::ops::range::Range' and len(rv['ops']) == 2:
+                n += 1
+                c = op_const(rv['ops'][1])
+                if c and 'val' in c and c.get('ty') in MAXV and str(c['val']) == str(MAXV[c['ty']]):
+                    hits.append((b, s_, c['ty']))
+    for b, s_, ty in hits:
+        ctx.bad(rule, 'exclusive-range-to-max|%s' % strip_generics(b.name), site(b, s_['cs']),
+                'an exclusive range ends at %s::MAX: the walk never visits the id %s::MAX, although it is a legal node id — a member with that id is selected and counted '
+                'but never reported as joined or departed (use an inclusive range)' % (ty, ty))
+    if not hits:
+        ctx.ok(rule, 'exclusive-range-to-max|none', '', '%d exclusive range(s) built in the node crate, none ends at the MAX of its element type' % n, nontrivial=False)
+
+
 def check(ctx):
     facts = ctx.facts('prod')
     import carrier_abs
@@ -502,6 +529,7 @@ def check(ctx):
     if not watcher_abs.check_watcher(ctx, facts, 'C16.SEM'):
         check_M1(ctx, facts)
     check_M2(ctx, facts)
+    check_M7(ctx, facts)
     # SEM: each consumer's service loop interpreted over a scripted membership history (consumer_abs); subsumes the per-consumer
     # clauses of M3 and M4, which are evaluated only when a construct is not modelled
     import consumer_abs
